@@ -170,6 +170,8 @@ def make_state(kind, vals):
         return np.array(vals, dtype=float).reshape(2, -1)
     if kind == "none":
         return None
+    if kind == "int":     # integer-typed start design (e.g. np.ones(n, dtype=int)): later designs are floats all the same
+        return np.array([int(round(v)) for v in vals], dtype=np.int64)
     return np.array(vals, dtype=float)
 
 
@@ -191,6 +193,8 @@ def run_impl(case):
     SepObj, AddUp = modules()
     with fast_init_loc():
         sigs = [pm.Signal(f"x{k}", make_state(kind, vals)) for k, (kind, vals) in enumerate(zip(case["kinds"], case["x0"]))]
+        for i, j in case.get("share", []):   # two variable signals initialised with the SAME array object
+            sigs[j].state = sigs[i].state
         rec = []
         cs = case["c"]
         if case["net"] == "single":
@@ -422,6 +426,20 @@ def gen_case(ctx, t):
         x0.append(flat[pos:pos + s])
         c.append(cflat[pos:pos + s])
         pos += s
+    share = []
+    if not fixed.any() and xmin[0] == "s" and xmax[0] == "s":
+        same = [(i, j) for i in range(nsig) for j in range(i + 1, nsig) if kinds[i] == kinds[j] and sizes[i] == sizes[j]
+                and kinds[i] in ("arr", "2d")]
+        if same and rng.random() < 0.5:
+            i, j = rng.choice(same)
+            x0[j] = list(x0[i])
+            share.append([i, j])
+        elif float(xmax[1]) >= 1.0 and float(xmin[1]) < 1.0 and rng.random() < 0.25:
+            ks = [k for k in range(nsig) if kinds[k] == "arr"]
+            if ks:
+                k = rng.choice(ks)
+                kinds[k] = "int"
+                x0[k] = [1.0] * sizes[k]
     r = rng.random()
     slo, shi = float(np.sum(lo)), float(np.sum(hi))
     if r < 0.3:
@@ -444,7 +462,7 @@ def gen_case(ctx, t):
         "tolx": tolx, "tolf": tolf,
         "maxit": maxit, "xmin": xmin, "xmax": xmax, "move": move,
         "l1init": rng.choice([0, 0, 0, 0.0, 1e-3]), "l2init": rng.choice([1e5, 100000, 1e5, 1e3, 1e9]),
-        "l1l2tol": rng.choice([1e-4, 1e-4, 1e-4, 1e-2, 1e-6]), "maxvol": maxvol,
+        "l1l2tol": rng.choice([1e-4, 1e-4, 1e-4, 1e-2, 1e-6]), "maxvol": maxvol, "share": share,
     }
 
 
